@@ -19,7 +19,8 @@ def run_e1(prop, batches, rule, assumptions, level='model_checking'):
             kw['known'] = known
             return kw
         return f
-    wrapped = [(d, cfgs, wrap(k)) for d, cfgs, k in batches]
+    from ..explorer import filter_deep
+    wrapped = [(d, filter_deep(prop, cfgs), wrap(k)) for d, cfgs, k in batches]
     results = run_batches(wrapped)
     complete = True
     for (driver, configs, _k), res in zip(wrapped, results):
